@@ -173,6 +173,7 @@ pub fn run_c11(opts: &Opts, out: &mut Emitter) {
         };
         out.case("random", || json!({"probe": "roundtrip", "tx": tx_json(&tx), "obs": roundtrip_obs(&tx)}));
     }
+    run_nesting_boundary(out, opts.thorough);
     // version gate
     for v in ["v1beta0", "v1alpha8", "v1alpha9", "v2", "", "V1BETA0"] {
         out.case("version", || {
@@ -274,19 +275,109 @@ fn typed_bomb_parts(base: &tir::Tx) -> BombParts {
         })
         .collect();
     let mut slots = vec![];
-    let mut t1 = base.clone();
-    t1.fees = marker.clone();
-    let mut t2 = base.clone();
-    t2.references = vec![marker.clone()];
-    let mut t3 = base.clone();
-    t3.outputs.push(tir::Output { address: E::None, datum: marker.clone(), amount: E::None, optional: false });
-    for t in [t1, t2, t3] {
+    for t in slot_variants(base, &marker) {
         let b = encoding::to_bytes(&t).0;
         if let Some(i) = find(&b, &m) {
             slots.push((b[..i].to_vec(), b[i + m.len()..].to_vec(), m.clone()));
         }
     }
     BombParts { slots, wrappers }
+}
+
+/// `base` with the marker expression in each kind of expression slot a transaction has, one at a time.
+fn slot_variants(base: &tir::Tx, marker: &tir::Expression) -> Vec<tir::Tx> {
+    use tir::Expression as E;
+    let mut v = vec![];
+    let mut t = base.clone();
+    t.fees = marker.clone();
+    v.push(t);
+    let mut t = base.clone();
+    t.references = vec![marker.clone()];
+    v.push(t);
+    let mut t = base.clone();
+    t.outputs.push(tir::Output { address: E::None, datum: marker.clone(), amount: E::None, optional: false });
+    v.push(t);
+    let mut t = base.clone();
+    t.inputs.push(tir::Input { name: "slot".into(), utxos: E::None, redeemer: marker.clone() });
+    v.push(t);
+    let mut t = base.clone();
+    t.mints.push(tir::Mint { amount: marker.clone(), redeemer: E::None });
+    v.push(t);
+    let mut t = base.clone();
+    t.collateral.push(tir::Collateral { utxos: marker.clone() });
+    v.push(t);
+    let mut t = base.clone();
+    t.signers = Some(tir::Signers { signers: vec![marker.clone()] });
+    v.push(t);
+    let mut t = base.clone();
+    t.metadata.push(tir::Metadata { key: E::Number(1), value: marker.clone() });
+    v.push(t);
+    let mut t = base.clone();
+    t.validity = Some(tir::Validity { since: marker.clone(), until: E::None });
+    v.push(t);
+    let mut t = base.clone();
+    t.adhoc.push(tir::AdHocDirective { name: "slot".into(), data: std::collections::HashMap::from([("k".to_string(), marker.clone())]) });
+    v.push(t);
+    v
+}
+
+/// Nesting boundary: for every expression slot of a transaction and every IR wrapper, the deepest nesting the
+/// real decoder still reads (scanned, not assumed) and the encodings around it; the judge asks the model
+/// reader, with ciborium's recursion budget, about the same bytes.
+pub fn run_nesting_boundary(out: &mut Emitter, thorough: bool) {
+    let parts = typed_bomb_parts(&empty_tx());
+    let names = ["fees", "reference", "output-datum", "input-redeemer", "mint-amount", "collateral", "signer", "metadata-value", "validity-since", "directive-value"];
+    for (si, (head, tail, marker)) in parts.slots.iter().enumerate() {
+        for (wi, (pre, post)) in parts.wrappers.iter().enumerate() {
+            let build = |d: usize| -> Vec<u8> {
+                let mut b = head.clone();
+                for _ in 0..d {
+                    b.extend_from_slice(pre);
+                }
+                b.extend_from_slice(marker);
+                for _ in 0..d {
+                    b.extend_from_slice(post);
+                }
+                b.extend_from_slice(tail);
+                b
+            };
+            let decode = |d: usize| -> Result<bool, String> {
+                let b = build(d);
+                guarded(|| encoding::from_bytes(&b, TirVersion::V1Beta0)).map(|r| r.is_ok())
+            };
+            // scan: deepest accepted nesting, and whether acceptance is downward closed
+            let mut deepest = 0usize;
+            let mut monotone = true;
+            let mut panics = vec![];
+            let top = 140usize;
+            for d in 0..=top {
+                match decode(d) {
+                    Ok(true) => {
+                        if d > deepest + 1 {
+                            monotone = false;
+                        }
+                        deepest = d;
+                    }
+                    Ok(false) => {}
+                    Err(site) => panics.push(json!({"depth": d, "site": site})),
+                }
+            }
+            let mut depths = vec![0usize, 1, deepest.saturating_sub(1), deepest, deepest + 1, deepest + 2];
+            if thorough {
+                depths.extend([2, 3, deepest / 2, deepest + 3, top]);
+            }
+            depths.sort();
+            depths.dedup();
+            for d in depths {
+                let b = build(d);
+                out.case("nesting-boundary", || {
+                    json!({"probe": "nest", "slot": names.get(si).copied().unwrap_or("?"), "wrapper": wi, "depth": d, "bytes": hx(&b),
+                           "deepest_accepted": deepest, "monotone": monotone, "panics": panics,
+                           "obs": match decode(d) { Ok(ok) => json!({"ok": ok}), Err(site) => json!({"panic": site}) }})
+                });
+            }
+        }
+    }
 }
 
 /// Child of the garbage probe: feeds malformed byte strings to `from_bytes`.
